@@ -14,6 +14,7 @@ def raw : RawFacts :=
     recheckAck := Facts.C24.recheckAck, recheckCtx := Facts.C24.recheckCtx,
     dropIfSent := Facts.C24.dropIfSent, nopOnCancel := Facts.C24.nopOnCancel,
     deleteOnReturn := Facts.C24.deleteOnReturn, removeAckDeferred := Facts.C24.removeAckDeferred,
+    handlerLogFirst := Facts.C24.handlerLogFirst,
     ackUnknown := Facts.C24.ackUnknown, ackCloses := Facts.C24.ackCloses, ackDeletes := Facts.C24.ackDeletes }
 
 /-- The engine as it is in the source, for a retry limit and interval. -/
